@@ -73,7 +73,7 @@ VSTD_STRONG = set("""len push pop insert remove clear truncate extend_from_slice
 is_some is_none unwrap unwrap_or expect is_ok is_err ok err as_ref as_mut take clone new with_capacity iter next
 unwrap_or_else and_then map ok_or ok_or_else checked_add checked_sub checked_mul wrapping_add wrapping_sub
 saturating_add saturating_sub min max eq ne lt le gt ge cmp partial_cmp into_iter Some None Ok Err Box Rc Arc Vec
-push_str push_back pop_front front back view spec_index index deref borrow""".split())
+push_str push_back pop_front front back view spec_index index deref borrow is_whitespace""".split())
 
 
 # constructors vstd specifies exactly (checked in this sandbox: the result's view is the argument / empty)
